@@ -41,7 +41,24 @@ struct Case {
 }
 
 fn strategy(max_ops: usize) -> BoxedStrategy<Case> {
-    (knobs_strategy(max_ops), any::<u64>()).prop_map(|(knobs, wseed)| Case { knobs, wseed }).boxed()
+    (knobs_strategy(max_ops), any::<u64>(), 0u8..4)
+        .prop_map(|(mut knobs, wseed, bare)| {
+            // a quarter of the circuits have no copy constraint at all (no equality-enabled column,
+            // no constants column): their permutation argument and parts of their keys are empty
+            if bare == 0 {
+                knobs.eq_mask = 0;
+                if (3..=7).contains(&knobs.min_degree) {
+                    knobs.min_degree = 8;
+                }
+                knobs.redundant = 0;
+                for o in knobs.ops.iter_mut() {
+                    o.srcs.clear();
+                    o.dst = 0;
+                }
+            }
+            Case { knobs, wseed }
+        })
+        .boxed()
 }
 
 const FORMATS: [(SerdeFormat, &str); 3] = [
